@@ -1440,6 +1440,7 @@ EGLPNUM_TYPENAME_QSLIB_INTERFACE int EGLPNUM_TYPENAME_QSchange_senses (
 	rval = EGLPNUM_TYPENAME_ILLlib_chgsense (p->lp, num, rowlist, sense);
 	CHECKRVALG (rval, CLEANUP);
 
+	p->factorok = 0;
 	free_cache (p);
 
 CLEANUP:
@@ -1521,6 +1522,7 @@ EGLPNUM_TYPENAME_QSLIB_INTERFACE int EGLPNUM_TYPENAME_QSchange_coef (
 	rval = EGLPNUM_TYPENAME_ILLlib_chgcoef (p->lp, rowindex, colindex, coef);
 	CHECKRVALG (rval, CLEANUP);
 
+	p->factorok = 0;
 	free_cache (p);
 
 CLEANUP:
